@@ -251,7 +251,13 @@ def resumeValue (st : State) (t : Nat) : Resume :=
   | .woken f =>
     match st.futs f with
     | .cancelled a => .one (if a then .cancelAnyio else .cancelNative)
-    | .failed e => if tk.mustCancel then .one (if tk.mcAnyio then .cancelAnyio else .cancelNative) else e
+    | .failed e =>
+      -- `__step`: `if self._must_cancel: if not isinstance(exc, CancelledError): exc = <new CancelledError>`:
+      -- a CancelledError stored in the awaited future (a child's cancellation relayed by a start future)
+      -- is thrown as it is, also when a cancellation request is pending
+      if tk.mustCancel && !e.isCancelledError then
+        .one (if tk.mcAnyio then .cancelAnyio else .cancelNative)
+      else e
     | _ => if tk.mustCancel then .one (if tk.mcAnyio then .cancelAnyio else .cancelNative) else .none
   | _ => if tk.mustCancel then .one (if tk.mcAnyio then .cancelAnyio else .cancelNative) else .none
 
